@@ -86,10 +86,14 @@ func (g *Gen) length() int {
 	return n
 }
 
-// Time returns a millisecond-aligned instant in a safe window (1971..2037) by default.
+// Time returns a millisecond-aligned instant: mostly 1971..2037, one in five anywhere in years 1..9999.
 func (g *Gen) Time() time.Time {
 	for {
 		sec := int64(31536000) + g.R.Int63n(2082758400-31536000)
+		if g.R.Intn(5) == 0 && !g.avoid("time.far") {
+			sec = -62135596700 + g.R.Int63n(253402300799+62135596700)
+			g.mark("time.far")
+		}
 		ms := g.R.Int63n(1000)
 		if g.R.Intn(5) == 0 {
 			ms = 0
